@@ -57,6 +57,8 @@ class EqSystem(ReactionSystem):
             rA, rb = linear_rref(
                 self.stoichs(non_precip_rids), list(map(be.log, eq_params)), Matrix
             )
+            if not hasattr(be, "Symbol"):  # numeric backends (numpy) cannot take sympy numbers
+                rb = [float(v) for v in rb]
             return rA.tolist(), list(map(be.exp, rb))
         else:
             return (self.stoichs(non_precip_rids), eq_params)
